@@ -15,7 +15,7 @@ RULE = ('exact: random/boundary graphs n<=8 x harness tables (duration per (node
 ASSUMPTIONS = ['user delay lists are ascending; three profiles keep them shorter than the duration (documented use), the profile late also lists attempts after the recovery of the source (the statement says: for every listed delay)', 'event times are distinct (checked per case; cases with ties are discarded and counted)']
 BUDGET = {'quick': 150, 'thorough': 1200}
 CHUNK = {'quick': 30, 'thorough': 150}
-REQUIRED = ['histories_compared', 'reinfections_seen', 'blocked_attempts_seen', 'user_fn_args_checked', 'law_tests', 'late_attempt_cases']
+REQUIRED = ['histories_compared', 'reinfections_seen', 'blocked_attempts_seen', 'user_fn_args_checked', 'law_tests', 'late_attempt_cases', 'stored_delay_lists_handed_out_again']
 INF = float('inf')
 
 
@@ -35,7 +35,7 @@ def gen_cases(tier, seed):
         if tmin < 0 and r.random() < 0.4:
             tmax = r.choice([0, 0.0])          # horizon exactly zero (a falsy number) after a negative start
         out.append({'kind': 'exact', 'graph': desc, 'I0': I0, 'tmin': tmin, 'tmax': tmax,
-                    'profile': r.choice(['sparse', 'dense', 'heavy', 'late']), 'form': r.choice(['sep', 'joint']), 'full': r.random() < 0.6, 'seed': cs})
+                    'profile': r.choice(['sparse', 'dense', 'heavy', 'late', 'stored']), 'form': r.choice(['sep', 'joint']), 'full': r.random() < 0.6, 'seed': cs})
     runs = 20000 if q else 250000
     ncfg = 4 if q else 12
     small = [g for g in gen.atlas(4, 2) if g['edges']]
@@ -59,6 +59,10 @@ def table_duration(seed, i, occ):
 
 
 def table_delays(seed, profile, i, j, occ, dur):
+    if profile == 'stored':
+        # a schedule the user keeps per contact (an edge attribute, a stored table): the same values for every infectious period
+        k = 1 + int(_u(seed, 'k', i, j) * 3)
+        return sorted(0.05 + 1.6 * _u(seed, 'v', i, j, m) for m in range(k))
     u = _u(seed, 'k', i, j, occ)
     if profile == 'sparse':
         k = 0 if u < 0.4 else (1 if u < 0.8 else 2)
@@ -157,12 +161,24 @@ def run_exact(case, res):
         bump(res, 'user_fn_args_checked')
         if rec_delay != last_dur.get(i):
             argbad.append((i, j, rec_delay, last_dur.get(i)))
-        return table_delays(seed, profile, i, j, occ[i] - 1, last_dur[i])
+        return delays_for(i, j, occ[i] - 1, last_dur[i])
+
+    store = {}
+
+    def delays_for(i, j, k, d):
+        if profile != 'stored':
+            return table_delays(seed, profile, i, j, k, d)
+        # the user hands out the very list object it keeps (no copy), every time this contact is asked about
+        if (i, j) not in store:
+            store[(i, j)] = table_delays(seed, profile, i, j, k, d)
+        else:
+            bump(res, 'stored_delay_lists_handed_out_again')
+        return store[(i, j)]
 
     def joint(u, nb, tag):
         d = rtf(u, tag)
         i = idx[u]
-        return {v: table_delays(seed, profile, i, idx[v], occ[i] - 1, d) for v in nb}, d
+        return {v: delays_for(i, idx[v], occ[i] - 1, d) for v in nb}, d
     if case['form'] == 'sep':
         kw = dict(trans_time_fxn=ttf, rec_time_fxn=rtf, trans_time_args=('a',), rec_time_args=('b',))
     else:
@@ -178,6 +194,10 @@ def run_exact(case, res):
         viol(res, 'fast_nonMarkov_SIS|delay_function_receives_the_infection_duration', {'node,nbr,passed,drawn': argbad[0]})
         return
     bump(res, 'histories_compared')
+    for (i, j), lst in store.items():
+        if lst != table_delays(seed, profile, i, j, 0, 0):
+            viol(res, 'fast_nonMarkov_SIS|user_delay_list_modified', {'contact': [i, j], 'now': lst, 'was': table_delays(seed, profile, i, j, 0, 0)})
+            return
     if profile == 'late':
         bump(res, 'late_attempt_cases')
     reinf = sum(1 for k in occs if k >= 2)
